@@ -5,7 +5,7 @@
    (Proofs/EncXmlProofs.v §2), hypotheses node_ok / lang_ok (boolean). *)
 From Coq Require Import List NArith Bool.
 From Wbxml Require Import Model.TablesDefs Model.Codec Model.EncXml Model.XmlRead Gen.TablesData
-     Proofs.EncXmlProofs Proofs.EncXmlIndent Proofs.EncXmlC07 Proofs.EncXmlTables.
+     Proofs.EncXmlProofs Proofs.EncXmlIndent Proofs.EncXmlC07 Proofs.EncXmlEol Proofs.EncXmlTables.
 Import ListNotations.
 Local Open Scope N_scope.
 
@@ -34,6 +34,33 @@ Print Assumptions C05_canonical_preserves_cr_lf_tab.
 
 (* --- reading the document back ------------------------------------------------------------------------- *)
 
+(* FULL.  For EVERY tree that satisfies the property's hypotheses and nothing more (node_ok_e: names are XML
+   names; text and attribute values are XML characters — carriage returns allowed everywhere —; no attribute name
+   twice, counting the generated xmlns; the content of a binary-flagged element is octets; a CDATA node holds one
+   payload text and an embedded document has a language, as the WBXML tree builder makes them), in EVERY generation
+   mode (compact, indented with any width at any depth — 8-bit depth counter mod 256 —, canonical) and both
+   white-space settings: the reader accepts the output, the DOCTYPE is the language's, and the root element is
+   the one info_e specifies: elements, attributes (xmlns per code page) and character data of the tree, base64
+   for binary-flagged elements, CDATA payloads put together again, embedded documents in place, the white space
+   of indented generation between markup only — with XML's own normalisation applied where the generator writes
+   the characters raw: CR LF / CR -> LF over each run of character data and over each CDATA payload (not in
+   canonical generation, which writes &#13;), literal TAB / LF / CR -> space in attribute values outside canonical
+   generation.  (Processing-instruction nodes make the conversion itself fail.) *)
+Theorem C05_read_enc : forall l o nm attrs ch out,
+  lang_ok l = true ->
+  node_ok_e l o proot None (Elt nm attrs ch) = true ->
+  enc_xml_opts l o [Elt nm attrs ch] = XOk out ->
+  exists c s',
+    info_e l o proot (est0 0) (Elt nm attrs ch) =
+      Some ([SR []; SE (tname_bytes nm) (spec_attrs_e l o proot nm attrs) c; SR (nl_if o)], s') /\
+    forall fuel, (node_fuel (Elt nm attrs ch) + 2 <= fuel)%nat ->
+      read_xml fuel out = ROk (doc_of l [XE (tname_bytes nm) (spec_attrs_e l o proot nm attrs) c]).
+Proof. exact read_enc_e. Qed.
+Print Assumptions C05_read_enc.
+
+(* the same under the additional hypothesis "no raw CR outside canonical generation / inside CDATA" (node_ok_g),
+   where no normalisation is involved and the specification info_g is the plain infoset; kept because C03 and C07
+   build on it *)
 (* EVERY generation mode (compact, indented with any width and at any depth — the 8-bit depth counter is
    threaded mod 256 —, canonical) and both white-space settings, for every kind of node the WBXML tree builder
    makes except processing instructions (which the generator refuses): elements (token or literal names,
